@@ -446,3 +446,69 @@ def write_evidence(check, tier, seed, agg, extra_cov=None, violations=0):
            'assumptions': check.ASSUMPTIONS, 'wall_s': round(wall, 2), 'violations': violations}
     (EVIDENCE / f'{check.ID}.json').write_text(json.dumps(doc, indent=1, default=_default))
     return doc
+
+
+# ------------------------------------------------------------------ work of the reporting process, done in a child
+
+def in_child(fn, timeout_s):
+    """run fn() in a forked child and return ('ok', result) | ('died', status) | ('timeout', None).
+
+    The reporting process re-runs cases (hang confirmation, minimisation, signatures) on a tree that is known to be
+    defective: a reduced case may crash the engine or loop forever. That must cost a minimised replay, never the
+    verdict - so this work happens in a child that may die."""
+    import pickle
+    import select
+    r, w = os.pipe()
+    sys.stdout.flush()
+    sys.stderr.flush()
+    pid = os.fork()
+    if pid == 0:
+        status = 1
+        try:
+            os.close(r)
+            signal.signal(signal.SIGALRM, _alarm)
+            signal.setitimer(signal.ITIMER_REAL, timeout_s)
+            try:
+                out = ('ok', fn())
+            except WatchdogTimeout:
+                out = ('timeout', None)
+            signal.setitimer(signal.ITIMER_REAL, 0)
+            with os.fdopen(w, 'wb') as f:
+                pickle.dump(out, f)
+            status = 0
+        except BaseException:   # noqa
+            traceback.print_exc()
+        finally:
+            sys.stdout.flush()
+            sys.stderr.flush()
+            os._exit(status)
+    os.close(w)
+    chunks = []
+    deadline = time.time() + timeout_s + 15
+    timed_out = False
+    while True:
+        left = deadline - time.time()
+        if left <= 0:
+            timed_out = True
+            break
+        ready, _, _ = select.select([r], [], [], min(left, 1.0))
+        if ready:
+            b = os.read(r, 1 << 20)
+            if not b:
+                break
+            chunks.append(b)
+    os.close(r)
+    if timed_out:
+        try:
+            os.kill(pid, signal.SIGKILL)
+        except OSError:
+            pass
+    _, st = os.waitpid(pid, 0)
+    if timed_out:
+        return 'timeout', None
+    if st != 0 or not chunks:
+        return 'died', st
+    try:
+        return pickle.loads(b''.join(chunks))
+    except Exception:       # noqa
+        return 'died', st
